@@ -287,7 +287,10 @@ macro_rules! impl_derivatives {
             #[inline]
             fn sph_j0(&self) -> Self {
                 if self.re().abs() < F::epsilon() {
-                    Self::one() - self * self / F::from(6.0).unwrap()
+                    // 1 - x^2/6 + x^4/120: correct derivatives through fourth order at zero
+                    let z = self * self;
+                    Self::one() - z.clone() / F::from(6.0).unwrap()
+                        + z.clone() * z / F::from(120.0).unwrap()
                 } else {
                     self.sin() / self
                 }
@@ -296,7 +299,9 @@ macro_rules! impl_derivatives {
             #[inline]
             fn sph_j1(&self) -> Self {
                 if self.re().abs() < F::epsilon() {
+                    // x/3 - x^3/30
                     self.clone() / F::from(3.0).unwrap()
+                        - self * self * self.clone() / F::from(30.0).unwrap()
                 } else {
                     let (s, c) = self.sin_cos();
                     (s - self * c) / (self * self)
@@ -306,7 +311,9 @@ macro_rules! impl_derivatives {
             #[inline]
             fn sph_j2(&self) -> Self {
                 if self.re().abs() < F::epsilon() {
-                    self * self / F::from(15.0).unwrap()
+                    // x^2/15 - x^4/210
+                    let z = self * self;
+                    z.clone() / F::from(15.0).unwrap() - z.clone() * z / F::from(210.0).unwrap()
                 } else {
                     let (s, c) = self.sin_cos();
                     let s2 = self * self;
